@@ -16,7 +16,11 @@ Phase == atoi(IOEnv.PHASE)
 
 EmptyBoard == [sq \in Squares |-> Empty]
 Put(b, sq, pc) == [b EXCEPT ![sq] = pc]
-Pos(b, stm, castle, ep) == [board |-> b, stm |-> stm, castle |-> castle, ep |-> ep, half |-> 0, full |-> 1]
+\* the counters are part of the position and of no rule of move generation: they vary with the placement
+\* (0 right after a double step), so that anything that lets them leak into moves, status or scores shows
+ClockOf(b) == LET occ == { s \in Squares : b[s] # Empty } IN ((CHOOSE s \in occ : \A t \in occ : s <= t) * 7 + (CHOOSE s \in occ : \A t \in occ : s >= t) * 3) % 60
+Pos(b, stm, castle, ep) == LET h == IF ep # 0 THEN 0 ELSE ClockOf(b) IN
+                           [board |-> b, stm |-> stm, castle |-> castle, ep |-> ep, half |-> h, full |-> h \div 2 + 1 + (IF stm = "b" THEN 1 ELSE 0)]
 Adjacent(a, b) == b \in KingTo[a]
 Sample(x) == Stride = 1 \/ (x % Stride) = Phase
 
